@@ -62,6 +62,8 @@ var transTargets = []transTarget{
 	{"TransImport", "chainimport", "headersImport", "validateChainContinuity", "validateChainContinuity"},
 	{"TransQuery", "", "ChainService", "prepareCFiltersQuery", "prepareCFiltersQuery"},
 	{"TransStore", "headerfs", "", "readHeadersFromFile", "readHeadersFromFile"},
+	{"TransStore", "headerfs", "headerStore", "trimPartialHeader", "trimPartialHeader"},
+	{"TransStore", "headerfs", "headerStore", "resetInterruptedInit", "resetInterruptedInit"},
 	{"TransStore", "headerfs", "blockHeaderStore", "FetchHeaderAncestors", "blockHeaderStore_FetchHeaderAncestors"},
 	{"TransStore", "headerfs", "filterHeaderStore", "FetchHeaderAncestors", "filterHeaderStore_FetchHeaderAncestors"},
 	{"TransRank", "query", "peerRanking", "AddPeer", "peerRanking_AddPeer"},
@@ -80,7 +82,7 @@ var transExtReal = map[string]bool{
 }
 
 // standard packages the translator needs signatures of (type-checked from GOROOT's sources)
-var transStd = map[string]bool{"bytes": true, "io": true}
+var transStd = map[string]bool{"bytes": true, "io": true, "io/fs": true, "os": true}
 
 var extRealOn bool
 
